@@ -52,20 +52,20 @@ type Oracles struct {
 	fsmNext      map[*Instance]uint64 // last index handed to this FSM instance (R2)
 	restoreFloor uint64               // indexes <= this are exempt from majority checks (user Restore)
 
-	leaderOf     map[uint64]string // C01/R1
-	leaderObs    []LeaderObs
-	acks         map[string][]Ack
-	payloadAt    map[uint64]uint64
-	watched      map[uint64]string
-	bootstrapped bool
+	leaderOf            map[uint64]string // C01/R1
+	leaderObs           []LeaderObs
+	acks                map[string][]Ack
+	payloadAt           map[uint64]uint64
+	watched             map[uint64]string
+	bootstrapped        bool
 	unconfirmedRestores map[string]int // user restores that replaced a server's state but have not returned nil
-	timeoutNows  map[string][]int64
-	termStart    map[string]uint64 // server/term -> first index it appended as leader of that term
-	userSnaps    map[uint64]uint64 // state hash of operator-supplied snapshots -> burned index
-	Quiet        bool              // faults have stopped: progress rules (C12/R3) are armed
-	snapRepeat   map[string]*repeatRec
-	aeRepeat     map[string]*repeatRec
-	senderOf     map[uint64]string // C01/R2
+	timeoutNows         map[string][]int64
+	termStart           map[string]uint64 // server/term -> first index it appended as leader of that term
+	userSnaps           map[uint64]uint64 // state hash of operator-supplied snapshots -> burned index
+	Quiet               bool              // faults have stopped: progress rules (C12/R3) are armed
+	snapRepeat          map[string]*repeatRec
+	aeRepeat            map[string]*repeatRec
+	senderOf            map[uint64]string // C01/R2
 
 	// statistics for non-triviality
 	Stats     map[string]int
@@ -633,6 +633,9 @@ func (o *Oracles) onFSMEntry(in *Instance, l *raft.Log, isCmd bool) {
 		return
 	}
 	o.stat("fsm-apply")
+	if o.SoloMode {
+		return // the solo engine compares FSM states with the model leader's fold itself
+	}
 	// agreed command list and the per-instance fold (R2 no skip, R3 state)
 	st := in.FSM.State // already folded
 	n := len(o.agreed)
@@ -690,6 +693,10 @@ func (o *Oracles) onFSMRestore(in *Instance, st FSMState) {
 		o.fsmNext[in] = st.LastIdx
 	}
 	if o.SoloMode {
+		// the model leader's snapshot is the ground truth: continue the fold from it
+		if n := len(o.agreed); n == 0 || o.agreed[n-1].Index < st.LastIdx {
+			o.agreed = append(o.agreed, agreedCmd{Index: st.LastIdx, Hash: st.Hash, Count: st.Count, Restore: true})
+		}
 		return
 	}
 	if want, ok := o.agreedStateAt(st.LastIdx); ok && st.LastIdx > o.restoreFloor {
